@@ -138,6 +138,30 @@ def known_keys():
     return {e['key']: e for e in k.get('known', [])}
 
 
+_KEEP = set(dir(__builtins__) if not isinstance(__builtins__, dict)
+            else __builtins__) | {
+    'self', 'and', 'or', 'not', 'in', 'is', 'for', 'if', 'else', 'lambda',
+    'after', 'via', 'before'}
+
+
+def stable_key(key):
+    """(rule, module, construct with local names alpha-renamed) of a
+    finding key `rule|module:qualname|construct`."""
+    rule, where, construct = (key.split('|', 2) + ['', ''])[:3]
+    mod = where.split(':')[0]
+    names = {}
+
+    def sub(m):
+        w = m.group(2)
+        if m.group(1) or w in _KEEP:
+            return m.group(0)
+        if w not in names:
+            names[w] = f'_{len(names) + 1}'
+        return names[w]
+    alpha = re.sub(r'(\.|:)?\b([A-Za-z_][A-Za-z_0-9]*)\b', sub, construct)
+    return (rule, mod, alpha)
+
+
 def run_check(pid, rules, tier, model_factory, level='other',
               assumptions=(), trusted_base=(), explanation='',
               extra_cov=None, thorough_extra=None):
@@ -172,12 +196,31 @@ def run_check(pid, rules, tier, model_factory, level='other',
     viol = []
     known_hit = []
     obligations = discharged = 0
+    # a listed finding whose site was renamed / moved inside its module
+    # (locals renamed, code extracted into a helper) is the same finding:
+    # listed entries that do not re-appear under their exact key form a
+    # pool per (rule, module, alpha-normalised construct); a finding with
+    # an unknown key consumes one pool entry, so an additional violation
+    # of the same shape is still reported
+    present = {f.key for r in results for f in r.findings}
+    pool = {}
+    for k in known:
+        if k not in present and k.split('.')[0] == pid:
+            sk = stable_key(k)
+            pool[sk] = pool.get(sk, 0) + 1
+    moved = set()
     for r in results:
         nk = nv = 0
         for f in r.findings:
+            sk = stable_key(f.key)
             if f.key in known:
                 nk += 1
                 known_hit.append(f)
+            elif pool.get(sk, 0) > 0:
+                pool[sk] -= 1
+                nk += 1
+                known_hit.append(f)
+                moved.add(id(f))
             else:
                 nv += 1
                 viol.append(f)
@@ -193,7 +236,9 @@ def run_check(pid, rules, tier, model_factory, level='other',
               f' :: {r.text}')
     for f in known_hit:
         print(f'KNOWN-FINDING: property={pid} {f.rule} {f.where}: '
-              f'{f.message} [{f.construct}]')
+              f'{f.message} [{f.construct}]'
+              + (' (listed finding, site renamed or moved within its '
+                 'module)' if id(f) in moved else ''))
     if selfval is not None:
         print(f'SELF-VALIDATION must_fire={selfval["must_fire"]} '
               f'fired={selfval["fired"]} must_stay_silent='
